@@ -7,7 +7,7 @@ import ast
 from ..cfg import build_cfg, calls_in, node_calls
 from ..core import Ctx, property_info, rule, share
 from ..model import AnalysisError, FuncInfo, anon_text, walk_no_nested
-from ..q import Dispatch, L, call_name_of, control_deps, expand_at, flow_conditions, flows, forms, return_values, str_template, template_text, tests_like, A, MUTATORS, asrc, enum_members, is_self_attr, kwarg, root_name, stores, unparse
+from ..q import Dispatch, L, call_name_of, control_deps, entry_conditions, expand_at, flow_conditions, flows, forms, return_values, str_template, template_text, tests_like, A, MUTATORS, asrc, enum_members, is_self_attr, kwarg, root_name, stores, unparse
 
 DM = "xsdata.codegen.mappers.dtd"
 DP = "xsdata.codegen.parsers.dtd"
@@ -223,10 +223,15 @@ def attribute_type_table(ctx: Ctx) -> None:
             continue
         ctx.ob(f"DTD attribute type {v!r} maps to a datatype", v.lower() in codes or v == "cdata", at=ctx.repo.module("xsdata.models.dtd"), node=val, construct=f"attr type {v}", msg="falls back to string silently")
     da = ctx.repo.cls("xsdata.models.dtd:DtdAttribute").methods["data_type"]
-    ctx.ob("DtdAttribute.data_type looks the lower-cased type value up with DataType.from_code", A("returnDataType.from_code(self.type.value.lower())") in asrc(da), at=da, construct="data_type lookup", msg="type lookup changed")
+    rv = return_values(da.node)
+    ok = bool(rv) and all(isinstance(v, ast.Call) and unparse(v.func) == "DataType.from_code" and len(v.args) == 1 and any(isinstance(x, ast.Call) and call_name_of(x) == "lower" for x in ast.walk(v.args[0])) and "self.type" in unparse(v.args[0]) for v in rv)
+    ctx.ob("DtdAttribute.data_type looks the lower-cased type value up with DataType.from_code", ok, at=da, construct="data_type lookup", msg="type lookup changed")
     bt = ctx.repo.func(f"{DM}:DtdMapper.build_attribute_type")
-    ctx.ob("enumerated attributes become a forward reference to an inner enumeration class", A("if_.type==DtdAttributeType.ENUMERATION:;cls.build_enumeration(_,_.name,_.values);returnAttrType(qname=_.name,forward=True)") in asrc(bt),
-           at=bt, construct="enumeration type", msg="enumerations typed differently")
+    de = _enum_dispatch(bt, "DtdAttributeType")
+    en_nodes = de.specific("ENUMERATION") if "ENUMERATION" in de.keys else []
+    builds = [c for n in en_nodes if n.kind != "test" for c in node_calls(n) if call_name_of(c) == "build_enumeration"]
+    fwd = [c for n in en_nodes if n.kind != "test" for c in node_calls(n) if call_name_of(c) == "AttrType" and isinstance(kwarg(c, "forward"), ast.Constant) and kwarg(c, "forward").value is True]
+    ctx.ob("enumerated attributes become a forward reference to an inner enumeration class", bool(builds) and bool(fwd), at=bt, construct="enumeration type", msg="enumerations typed differently")
 
 
 @rule("C16.R5")
@@ -616,10 +621,22 @@ def no_cross_call_state(ctx: Ctx) -> None:
                 writes.append(f"{m.name}: {unparse(c)[:40]}")
     ctx.ob("no method of PycodeSerializer writes self.*", not writes, at=cls_.methods["render"], construct="serializer writes", msg=f"writes {writes}")
     rm = cls_.methods["repr_model"]
-    a = asrc(rm)
-    ctx.ob("repr_model walks class_type.get_fields(obj) and elides a value only if it equals that field's own default", A("for_inself.context.class_type.get_fields(_):") in a and A("_=self.context.class_type.default_value(_,default=unset)") in a
-           and A("if_isnotunsetand(callable(_)and_()==_or_==_):;continue") in a, at=rm, construct="default elision", msg="default elision consults something else than the object's own field defaults")
-    ctx.ob("repr_model skips non-init fields", A("ifnot_.init:;continue") in a, at=rm, construct="init only", msg="non-init fields passed to the constructor")
+    grm = build_cfg(rm.node)
+    loops = [n for n in grm.nodes if n.kind == "for" and n.ast is not None and unparse(n.ast.iter) == "self.context.class_type.get_fields(obj)"]
+    dv = [c for c in calls_in(rm.node) if unparse(c.func) == "self.context.class_type.default_value" and c.args and isinstance(loops[0].ast.target if loops else None, ast.Name) and unparse(c.args[0]) == loops[0].ast.target.id]
+    emits = [n for n in grm.stmts() if n.kind == "stmt" and any(isinstance(y, ast.YieldFrom) and isinstance(y.value, ast.Call) and call_name_of(y.value) == "repr_object" for y in [n.ast, *walk_no_nested(n.ast)])]
+    # a field's value is emitted unless it is a non-init field or equals the default obtained for that very field
+    ok = bool(loops) and bool(dv) and bool(emits) and all(any(t == "_.init" and pol for t, pol, _ in control_deps(rm, n)) for n in emits)
+    # "no default" must be distinguishable from a default of None: default_value(field, default=<sentinel object>) and the elision requires `is not <sentinel>`
+    sentinels = {unparse(kwarg(c, "default")) for c in dv if isinstance(kwarg(c, "default"), ast.Name)}
+    mod_sent = {s for s in sentinels if isinstance(rm.module.globals.get(s), ast.Call) and unparse(rm.module.globals[s].func) == "object"}
+    skips = [n for n in grm.stmts() if isinstance(n.ast, ast.Continue) and any("==" in t and pol for t, pol, _ in [*control_deps(rm, n), *entry_conditions(rm, n)])]
+    sent_ok = bool(mod_sent) and len(sentinels) == 1 and all(kwarg(c, "default") is not None for c in dv) and bool(skips) and all(
+        any(isinstance(t.ast, ast.Compare) and isinstance(t.ast.ops[0], ast.IsNot) and unparse(t.ast.comparators[0]) in mod_sent and pol for _x, pol, t in control_deps(rm, n)) for n in skips)
+    ctx.ob("repr_model elides a value only if the field HAS a default (a sentinel distinguishes 'no default' from a default of None) that equals it", sent_ok, at=rm, construct="default sentinel",
+           msg="a required field whose value is None is elided: the emitted constructor call raises TypeError (missing argument)")
+    ctx.ob("repr_model walks class_type.get_fields(obj), takes each field's own default from class_type.default_value(field) and skips non-init fields", ok, at=rm, construct="default elision",
+           msg="default elision consults something else than the object's own field defaults / non-init fields passed to the constructor")
 
 
 @rule("C17.R5")
@@ -639,7 +656,8 @@ def per_operation_configuration(ctx: Ctx) -> None:
                         ctx.ob(f"{fi.qual.split(':')[1]}: {name}.{f.attr}() inside the loop does not leak into the next item's configuration", not passed, at=fi, node=c,
                                msg=f"`{name}` lives across iterations and is also passed to {unparse(passed[0].func) if passed else ''}: values set for one operation / message carry over to the following ones (copy it per item)")
     mb = ctx.repo.func("xsdata.codegen.mappers.definitions:DefinitionsMapper.map_binding")
-    a = asrc(mb)
-    ctx.ob("map_binding builds each operation's configuration from a copy of the binding configuration", A("_=_.copy();_.update(cls.attributes(_.extended_elements))") in a, at=mb, construct="operation config copy",
+    upd = [c for c in calls_in(mb.node) if isinstance(c.func, ast.Attribute) and c.func.attr == "update" and isinstance(c.func.value, ast.Name)]
+    copies = {tgt.id for st, tgt, v in stores(mb.node) if isinstance(tgt, ast.Name) and isinstance(v, ast.Call) and ((isinstance(v.func, ast.Attribute) and v.func.attr == "copy") or unparse(v.func) == "dict")}
+    ctx.ob("map_binding builds each operation's configuration from a copy of the binding configuration", bool(upd) and all(c.func.value.id in copies for c in upd), at=mb, construct="operation config copy",
            msg="operation attributes are merged into the shared binding configuration")
     ctx.note("C17.R5 loop-carried updates", n)
